@@ -39,6 +39,14 @@ type c09Family struct {
 	multiWide bool // spawns one core whose frame is wide (peak measured on the same function run as entry core)
 	interp  bool // also meaningful for the interpreter (call depth only)
 	depthOf func(d int) int // interpreter call depth as a function of d (model)
+	seeded  bool            // generated from Params["g"] (see gen.go); gen is ignored
+}
+
+func (f c09Family) source(spec RunSpec, d int) string {
+	if f.seeded {
+		return genProgram(uint64(spec.P("g", 1)), "leak", d)
+	}
+	return f.gen(d)
 }
 
 func nest(e int) string {
@@ -104,6 +112,7 @@ fn main() { spawn w(%d); let c = 0; while c < 400 { c = c + 1; g = g + 1; } prin
 		fmt.Fprintf(&b, "    println(\"w\", v0 + v%d);\n}\nfn main() { spawn wide(1); println(\"main done\"); }", d-1)
 		return b.String()
 	}},
+	{name: "gen-leak", leak: true, seeded: true},
 	{name: "recursion-via-value", interp: true, depthOf: func(d int) int { return d + 1 }, gen: func(d int) string {
 		return fmt.Sprintf(`fn r(n: int) -> int { let f = r; if n == 0 { 0 } else { 1 + f(n - 1) } }
 fn main() { println("r", r(%d)); }`, d)
@@ -178,6 +187,9 @@ func init() {
 		leakFamily("method-result-unused", "", `i.to_string();`),
 		leakFamily("list-temporaries", "", `let l = [i, i + 1, i + 2]; y = l[0] + l.len();`),
 		leakFamily("spawn-in-loop", "fn w(x: int) { let z = x + 1; }", `spawn w(i);`),
+		leakFamily("throw-after-return-in-try", "fn h(p: int) -> int { try { if p % 2 == 0 { return 1; } } catch e { } 2 }", `try { y = y + h(i); if i % 3 == 0 { throw("t"); } y = y + 1; } catch e2 { y = y + 10; }`),
+		leakFamily("throw-after-break-in-try", "", `try { let k = 0; loop { k = k + 1; try { if k > 1 { break; } } catch e { y = 0; } } if i % 2 == 0 { throw("t"); } } catch e3 { y = y + 1; }`),
+		leakFamily("throw-after-continue-in-try", "", `try { for j in 0..3 { try { if j == 1 { continue; } y = y + 1; } catch e { y = 0; } } throw("t"); } catch e4 { y = y + 1; }`),
 		leakFamily("for-list-continue", "", `for e in [1, 2, 3, 4] { if e % 2 == 0 { continue; } y = y + e; }`),
 		leakFamily("for-string", "", `for ch in "abc" { if ch == "b" { continue; } y = y + 1; }`),
 		leakFamily("while-break-nested-block", "", `let k = 0; while k < 5 { k = k + 1; { let t = k * 2; if t > 4 { break; } } }`),
@@ -204,6 +216,7 @@ type c09Run struct {
 	ticks     []c09Sample
 	treeOut   outcome
 	afterStop bool
+	unobservable bool // the core's resource fields could not be read (renamed?): peaks unknown
 }
 
 // c09Exec runs one program under the given limits.
@@ -223,7 +236,12 @@ func c09Exec(t *testing.T, spec RunSpec, src string, backend int, limits runtime
 	if measure && backend == 0 {
 		cfg.StepHook = func() {
 			for i, c := range cores {
-				s := c09Sample{len(c.CallStack), len(c.Stack), int(c.MemoryPointer), len(c.ExceptionCatchLabels)}
+				call, st, mem, hs, ok := coreLevels(c)
+				if !ok {
+					rr.unobservable = true
+					continue
+				}
+				s := c09Sample{call, st, mem, hs}
 				if i == 0 {
 					rr.peak = maxSample(rr.peak, s)
 				}
@@ -237,8 +255,8 @@ func c09Exec(t *testing.T, spec RunSpec, src string, backend int, limits runtime
 			env := &vmEnv{prog: prog, out: out, ctx: ctx, exec: NewVMExec(out), limits: limits}
 			var entry *runtime.Core
 			env.tick = func() {
-				if entry != nil {
-					rr.ticks = append(rr.ticks, c09Sample{len(entry.CallStack), len(entry.Stack), int(entry.MemoryPointer), len(entry.ExceptionCatchLabels)})
+				if call, st, mem, hs, ok := coreLevels(entry); ok {
+					rr.ticks = append(rr.ticks, c09Sample{call, st, mem, hs})
 				}
 			}
 			env.boot()
@@ -297,8 +315,12 @@ func c09Generous(p c09Sample) runtime.CoreLimits {
 	return runtime.CoreLimits{CallStackMaxSize: uint(p.call*2 + 200), StackMaxSize: uint(p.stack*2 + 300), MaxMemorySize: uint(p.mem*2 + 500)}
 }
 
-func c09Reference(t *testing.T, fam, d, backend int) *c09Ref {
-	key := fmt.Sprintf("%d/%d/%d", fam, d, backend)
+func c09Reference(t *testing.T, fam, d, backend int, gs ...int) *c09Ref {
+	g := 0
+	if len(gs) > 0 {
+		g = gs[0]
+	}
+	key := fmt.Sprintf("%d/%d/%d/%d", fam, d, backend, g)
 	if r, ok := c09Refs[key]; ok {
 		return r
 	}
@@ -341,14 +363,18 @@ func c09Reference(t *testing.T, fam, d, backend int) *c09Ref {
 		*ref = *own
 		return ref
 	}
-	*ref = *c09ReferenceRaw(t, f, d, backend)
+	*ref = *c09ReferenceRaw(t, f, d, backend, g)
 	return ref
 }
 
-func c09ReferenceRaw(t *testing.T, f c09Family, d, backend int) *c09Ref {
+func c09ReferenceRaw(t *testing.T, f c09Family, d, backend int, gs ...int) *c09Ref {
 	ref := &c09Ref{}
-	spec := RunSpec{Property: "C09", Params: map[string]int{"d": d, "backend": backend}, Sim: SimParams{StepCostNs: 100}, Choices: &simrt.Sparse{}}
-	res, rr, err := c09Exec(t, spec, f.gen(d), backend, runtime.CoreLimits{CallStackMaxSize: 20000, StackMaxSize: 50000, MaxMemorySize: 200000}, 20000, true)
+	g := 0
+	if len(gs) > 0 {
+		g = gs[0]
+	}
+	spec := RunSpec{Property: "C09", Params: map[string]int{"d": d, "backend": backend, "g": g}, Sim: SimParams{StepCostNs: 100}, Choices: &simrt.Sparse{}}
+	res, rr, err := c09Exec(t, spec, f.source(spec, d), backend, runtime.CoreLimits{CallStackMaxSize: 20000, StackMaxSize: 50000, MaxMemorySize: 200000}, 20000, true)
 	if err != nil {
 		ref.err = err.Error()
 		return ref
@@ -359,6 +385,10 @@ func c09ReferenceRaw(t *testing.T, f c09Family, d, backend int) *c09Ref {
 	}
 	if rr.out.Kind != "completed" {
 		ref.err = "reference run did not complete: " + rr.out.Kind + " " + firstLine(rr.out.Msg)
+		return ref
+	}
+	if rr.unobservable && backend == 0 {
+		ref.err = "infra: the Core's CallStack/Stack/MemoryPointer fields are not observable: peak demand cannot be measured"
 		return ref
 	}
 	ref.run = rr
@@ -375,7 +405,12 @@ func runC09(t *testing.T, spec RunSpec) *Verdict {
 	backend := spec.P("backend", 0)
 	f := c09Families[fam]
 	cell := f.name + "/" + []string{"vm", "interp"}[backend]
-	ref := c09Reference(t, fam, d, backend)
+	ref := c09Reference(t, fam, d, backend, spec.P("g", 0))
+	if ref.err != "" && f.seeded && strings.Contains(ref.err, "does not compile") {
+		// the generator produced a program the analyzer rejects: not a verdict about the product
+		v.Probes = map[string]int{"generated-program-rejected": 1}
+		return v
+	}
 	if ref.err != "" {
 		// the fault-free run under generous limits must complete: it is within every limit
 		if strings.Contains(ref.err, "does not compile") {
@@ -420,14 +455,14 @@ func runC09(t *testing.T, spec RunSpec) *Verdict {
 	} else if k < peakK-slack {
 		zone = "exceeded"
 	}
-	res, rr, err := c09Exec(t, spec, f.gen(d), backend, limits, treeLimit, false)
+	res, rr, err := c09Exec(t, spec, f.source(spec, d), backend, limits, treeLimit, false)
 	if err != nil {
 		v.fail(P, "infra", "", "", err.Error())
 		return v
 	}
 	v.absorb(P, res)
 	v.Output = rr.lines
-	v.Extra = map[string]any{"source": f.gen(d)}
+	v.Extra = map[string]any{"source": f.source(spec, d)}
 	tag := cell + ":" + kindName + ":" + zone
 	if v.Class != "" {
 		if v.Class == "host-crash" || v.Class == "runaway" || v.Class == "deadlock" {
@@ -505,6 +540,30 @@ func planC09(t *testing.T, tier string, seed uint64) ([]RunSpec, error) {
 	}
 	idx := 0
 	for fi, f := range c09Families {
+		if f.seeded {
+			ng := 60
+			if !quick(tier) {
+				ng = 6000
+			}
+			for gi := 0; gi < ng; gi++ {
+				gs := 1 + int(simrt.Mix(seed, uint64(gi), 0x9e4)%1000000)
+				ref := c09Reference(t, fi, 12, 0, gs)
+				if ref.err != "" {
+					if !strings.Contains(ref.err, "does not compile") {
+						plan = append(plan, RunSpec{Property: "C09", Workload: "c09/gen-leak/vm", Params: map[string]int{"fam": fi, "d": 12, "backend": 0, "g": gs}, Fault: map[string]int{"kind": 1, "k": 100000}, Sim: SimParams{StepCostNs: 1000}})
+					}
+					continue
+				}
+				pk := ref.run.peakAll
+				for _, kk := range [][2]int{{0, pk.call + 2}, {1, pk.stack + 2}, {2, pk.mem + 2}} {
+					s := RunSpec{Property: "C09", Workload: "c09/gen-leak/vm", Params: map[string]int{"fam": fi, "d": 12, "backend": 0, "g": gs}, Fault: map[string]int{"kind": kk[0], "k": kk[1]}, Sim: SimParams{StepCostNs: 1000}}
+					s.Seed = runSeed(seed, idx)
+					idx++
+					plan = append(plan, s)
+				}
+			}
+			continue
+		}
 		for _, d := range sizes {
 			for backend := 0; backend < 2; backend++ {
 				if backend == 1 && !f.interp {
